@@ -897,7 +897,7 @@ def coverage_report(res, label):
     return '\n'.join(out), mt
 
 
-N_THEOREMS = 46
+N_THEOREMS = 49
 CURRENT_LAYOUT = 'fixed+dtor'     # = Layout.current in lean/MpVerif/C15/Model.lean (the order the main theorems are stated for)
 
 
